@@ -16,7 +16,7 @@ open Primaite.Gen
 attribute [local simp] TickW.of TickW.setCd TickW.setRcd TickW.setHealth TickW.setOp TickW.afterRestore TickW.afterBackup optCmp optTruthy
 
 /-- generic fix step of `Software` on the model's numbers -/
-private theorem sw_update_fix (s : Server) (b : Backup) (cd : Nat) (rcd : Int) (t : Nat) (pq pr big k : Bool) :
+theorem tick_sw_update_fix (s : Server) (b : Backup) (cd : Nat) (rcd : Int) (t : Nat) (pq pr big k : Bool) :
     DatabaseTickTr.Software_update_fix_status { s := s, b := b, cd := some (cd : Int), rcd := rcd } t pq pr big k =
       if cd ≤ 1 then { s := { s with health := .good, fixCd := 0 }, b := b, cd := none, rcd := rcd }
       else { s := { s with fixCd := cd - 1 }, b := b, cd := some ((cd : Int) - 1), rcd := rcd } := by
@@ -29,21 +29,21 @@ private theorem sw_update_fix (s : Server) (b : Backup) (cd : Nat) (rcd : Int) (
     simp [h, h', h2]
 
 /-- `Software.apply_timestep` (with the database service's `_update_fix_status`) = the model's `tickFix` -/
-private theorem sw_apply (s : Server) (b : Backup) (t : Nat) (pq pr big k : Bool) :
+theorem tick_sw_apply (s : Server) (b : Backup) (t : Nat) (pq pr big k : Bool) :
     (DatabaseTickTr.Software_apply_timestep (TickW.of s b) t pq pr big k).s = s.tickFix b pq pr k ∧
     (DatabaseTickTr.Software_apply_timestep (TickW.of s b) t pq pr big k).b = b ∧
     (DatabaseTickTr.Software_apply_timestep (TickW.of s b) t pq pr big k).rcd = (s.restartCd : Int) := by
   unfold DatabaseTickTr.Software_apply_timestep DatabaseTickTr.SimComponent_apply_timestep
     DatabaseTickTr.DatabaseService_update_fix_status Server.tickFix
   by_cases hf : s.health = .fixing
-  · have := sw_update_fix s b s.fixCd (s.restartCd : Int) t pq pr big k
+  · have := tick_sw_update_fix s b s.fixCd (s.restartCd : Int) t pq pr big k
     simp only [TickW.of] at this ⊢
     by_cases h : s.fixCd ≤ 1
     · simp [hf, this, h, C17_tr_restore]
     · simp [hf, this, h]
   · simp [hf]
 
-private theorem restore_rcd (s : Server) (b : Backup) (pq pr k : Bool) :
+theorem tick_restore_cds (s : Server) (b : Backup) (pq pr k : Bool) :
     (restoreBackup s b pq pr k).1.restartCd = s.restartCd ∧ (restoreBackup s b pq pr k).1.fixCd = s.fixCd := by
   rw [restoreBackup_closed]
   cases hg : (!s.canAct || !s.backupConfigured || s.ftpc.isNone)
@@ -52,20 +52,20 @@ private theorem restore_rcd (s : Server) (b : Backup) (pq pr k : Bool) :
     | some bh => cases hx : (pq && b.serves && k && pr && s.ftpcAct) <;> simp
   · simp
 
-private theorem backup_cds (s : Server) (b : Backup) (pq big : Bool) :
+theorem tick_backup_cds (s : Server) (b : Backup) (pq big : Bool) :
     (backupDatabase s b pq big).1.restartCd = s.restartCd ∧ (backupDatabase s b pq big).1.fixCd = s.fixCd := by
   cases big <;> unfold backupDatabase ftpSendFile <;> dsimp only <;> (repeat' split) <;> first | simp | simp_all
 
-private theorem tickFix_rcd (s : Server) (b : Backup) (pq pr k : Bool) : (s.tickFix b pq pr k).restartCd = s.restartCd := by
+theorem tick_tickFix_rcd (s : Server) (b : Backup) (pq pr k : Bool) : (s.tickFix b pq pr k).restartCd = s.restartCd := by
   unfold Server.tickFix
-  (repeat' split) <;> first | rfl | exact (restore_rcd _ b pq pr k).1
+  (repeat' split) <;> first | rfl | exact (tick_restore_cds _ b pq pr k).1
 
 /-- `Service.apply_timestep` = fix step, then restart step -/
-private theorem svc_apply (s : Server) (b : Backup) (t : Nat) (pq pr big k : Bool) :
+theorem tick_svc_apply (s : Server) (b : Backup) (t : Nat) (pq pr big k : Bool) :
     (DatabaseTickTr.Service_apply_timestep (TickW.of s b) t pq pr big k).s = (s.tickFix b pq pr k).tickRestart ∧
     (DatabaseTickTr.Service_apply_timestep (TickW.of s b) t pq pr big k).b = b := by
-  obtain ⟨h1, h2, h3⟩ := sw_apply s b t pq pr big k
-  have h4 := tickFix_rcd s b pq pr k
+  obtain ⟨h1, h2, h3⟩ := tick_sw_apply s b t pq pr big k
+  have h4 := tick_tickFix_rcd s b pq pr k
   unfold DatabaseTickTr.Service_apply_timestep Server.tickRestart
   generalize DatabaseTickTr.Software_apply_timestep (TickW.of s b) t pq pr big k = w at h1 h2 h3
   generalize s.tickFix b pq pr k = s' at h1 h4
@@ -90,14 +90,14 @@ theorem C17_tr_tick_svc (s : Server) (b : Backup) (t : Nat) (pq pr big k : Bool)
   unfold DatabaseTickTr.applyTimestep DatabaseTickTr.DatabaseService_apply_timestep Server.tickSvc
   by_cases ht : t = 1
   · subst ht
-    have hb := backup_cds s b pq big
+    have hb := tick_backup_cds s b pq big
     have hw : (TickW.of s b).afterBackup (DatabaseTr.backupDatabase (TickW.of s b).s (TickW.of s b).b pq big)
         = TickW.of (backupDatabase s b pq big).1 (backupDatabase s b pq big).2.1 := by
       simp [C17_tr_backup, hb.1, hb.2]
-    have h := svc_apply (backupDatabase s b pq big).1 (backupDatabase s b pq big).2.1 1 pq pr big k
+    have h := tick_svc_apply (backupDatabase s b pq big).1 (backupDatabase s b pq big).2.1 1 pq pr big k
     simp only [hi, hw]
     simpa using h
-  · have h := svc_apply s b t pq pr big k
+  · have h := tick_svc_apply s b t pq pr big k
     have ht' : ¬ ((t : Int) = 1) := by omega
     simp only [hi]
     simpa [ht, ht'] using h
@@ -146,7 +146,7 @@ theorem C17_tr_backup_only_at_timestep_1 (s : Server) (b : Backup) (t : Nat) (pq
     (DatabaseTickTr.applyTimestep (TickW.of s b) t pq pr big k).b = b := by
   unfold DatabaseTickTr.applyTimestep DatabaseTickTr.DatabaseService_apply_timestep
   have ht' : ¬ ((t : Int) = 1) := by omega
-  have h := svc_apply s b t pq pr big k
+  have h := tick_svc_apply s b t pq pr big k
   simpa [ht'] using h.2
 
 /-- On the translated code: a fix with n ≥ 2 ticks to go only counts down — health stays FIXING, no backup is fetched (file and
